@@ -24,6 +24,7 @@ pub enum Family {
     C15,
     C16,
     C17,
+    C19,
     C20,
 }
 
@@ -46,6 +47,7 @@ impl Family {
             "C15" => Family::C15,
             "C16" => Family::C16,
             "C17" => Family::C17,
+            "C19" => Family::C19,
             "C20" => Family::C20,
             _ => return None,
         })
@@ -68,6 +70,7 @@ impl Family {
             Family::C15 => "C15",
             Family::C16 => "C16",
             Family::C17 => "C17",
+            Family::C19 => "C19",
             Family::C20 => "C20",
         }
     }
@@ -90,6 +93,7 @@ pub const ALL_FAMILIES: &[Family] = &[
     Family::C15,
     Family::C16,
     Family::C17,
+    Family::C19,
     Family::C20,
 ];
 
@@ -111,6 +115,7 @@ pub fn generate(f: Family, ch: &mut Choices) -> Plan {
         Family::C15 => gen_c15(ch),
         Family::C16 => gen_c16(ch),
         Family::C17 => gen_c17(ch),
+        Family::C19 => gen_c19(ch),
         Family::C20 => gen_c20(ch),
     }
 }
@@ -1235,6 +1240,187 @@ fn gen_c10c(ch: &mut Choices) -> Plan {
     }
     plan.ending = Ending::Settle;
     plan.max_steps = 60_000;
+    plan
+}
+
+
+// ------------------------------------------------------------------------------------------
+// C19: handshake gate, version routing, negotiated limits
+
+fn gen_c19(ch: &mut Choices) -> Plan {
+    let role = if ch.chance(1, 2) { Role::S3 } else { Role::S5 };
+    let ver = role.ver();
+    let v5 = ver == Ver::V5;
+    let mut plan = base_plan("C19", role, ch);
+    plan.cfg.combined = ch.chance(1, 2);
+    plan.cfg.use_router = false;
+    plan.p_immediate = *ch.pick(&[1000u32, 0]);
+    // how the first bytes are cut
+    plan.cut = match ch.choose(4) {
+        0 => Cut::All,
+        1 => Cut::Byte,
+        _ => Cut::Random,
+    };
+    let kind = ch.weighted(&[40, 15, 10, 10, 5, 10, 5, 5]);
+    let mut connect = plan.peer.connect.clone();
+    connect.keep_alive = *ch.pick(&[60_000u16, 10, 0]);
+    plan.peer.connect = connect.clone();
+    let raw_connect = |c: &rc::Connect, reserved_flag: bool| -> PeerStep {
+        let mut bytes = rc::encode(ver, &Pkt::Connect(c.clone()));
+        if reserved_flag {
+            if let Ok(Some((_, _, hl))) = rc::fixed_header(&bytes) {
+                let off = hl + 2 + c.proto_name.len() + 1;
+                bytes[off] |= 0x01;
+            }
+        }
+        PeerStep { pre: Pre::None, bytes, pkt: Some(Pkt::Connect(c.clone())), corrupt: None, then_close: None }
+    };
+    match kind {
+        0 => plan.tags.push("first:connect".into()),
+        1 => {
+            // something else first
+            plan.peer.skip_connect = true;
+            let mut p = template(ver, true, ch, 0);
+            if matches!(p, Pkt::Connect(_)) {
+                p = Pkt::PingReq;
+            }
+            plan.tags.push(format!("first:other:{}", p.name()));
+            plan.peer.script.push(PeerStep { pre: Pre::None, ..step(p, ver, Pre::None) });
+        }
+        2 => {
+            plan.peer.skip_connect = true;
+            let mut c = connect.clone();
+            c.proto_name = ch.pick(&["MQTX", "MQIsdp", "mqtt", ""]).to_string();
+            plan.tags.push("first:bad-name".into());
+            plan.peer.script.push(raw_connect(&c, false));
+        }
+        3 => {
+            plan.peer.skip_connect = true;
+            let mut c = connect.clone();
+            c.level = *ch.pick(&[3u8, 6, 0, 255]);
+            plan.tags.push("first:bad-level".into());
+            plan.peer.script.push(raw_connect(&c, false));
+        }
+        4 => {
+            plan.peer.skip_connect = true;
+            plan.tags.push("first:reserved-flag".into());
+            plan.peer.script.push(raw_connect(&connect, true));
+        }
+        5 => {
+            let code = if v5 { *ch.pick(&[0x87u8, 0x80, 0x86, 0x95]) } else { 1 + ch.choose(5) as u8 };
+            plan.cfg.hs = HsOutcome::Refuse(code);
+            plan.tags.push(format!("first:refused:{code}"));
+        }
+        6 => {
+            plan.cfg.hs = HsOutcome::Error;
+            plan.tags.push("first:hs-error".into());
+        }
+        _ => {
+            plan.cfg.hs_gated = true;
+            plan.tags.push("first:slow-handshake".into());
+        }
+    }
+    let accepted = matches!(kind, 0 | 7);
+    // traffic pipelined right behind the first packet: must wait for (or never see) the application
+    let n_pipe = 1 + ch.choose(2);
+    for i in 0..n_pipe {
+        let mut p = mk_publish(ver, ch, 50 + i, 0, None, 3);
+        p.dup = false;
+        p.retain = false;
+        // small (fits every inbound size limit), no alias
+        p.props.clear();
+        let _ = v5;
+        plan.peer.script.push(step(Pkt::Publish(p), ver, Pre::None));
+    }
+    if accepted {
+        // one limit and its probes
+        match ch.choose(if v5 { 5 } else { 2 }) {
+            0 => {
+                // inbound maximum packet size (on the Remaining Length, as the codecs count)
+                let mut m = *ch.pick(&[60u32, 200]);
+                plan.cfg.max_size = m;
+                if v5 && ch.chance(1, 2) {
+                    // the handshake announces another value: that one is the negotiated limit
+                    let o = *ch.pick(&[50u32, 120]);
+                    plan.cfg.hs_max_packet_size = Some(o);
+                    m = o;
+                }
+                plan.tags.push(format!("limit:max-size:{m}"));
+                for (i, target) in [m, m + 1].iter().enumerate() {
+                    // payload sized so that the frame's Remaining Length is exactly `target`
+                    let mut p = mk_publish(ver, ch, 60 + i as u32, 0, None, 0);
+                    p.props.clear();
+                    p.topic = format!("t/{}", 60 + i);
+                    let base = rc::encode(ver, &Pkt::Publish(p.clone()));
+                    let rem0 = rc::fixed_header(&base).ok().flatten().map_or(0, |h| h.1);
+                    p.payload = crate::world::make_payload(600 + i as u32, (*target as usize).saturating_sub(rem0));
+                    plan.peer.script.push(step(Pkt::Publish(p), ver, Pre::Connected));
+                }
+            }
+            1 => {
+                let q = ch.choose(2) as u8;
+                plan.cfg.max_qos = q;
+                plan.tags.push(format!("limit:max-qos:{q}"));
+                for (i, qos) in [q, q + 1].iter().enumerate() {
+                    let pid = if *qos > 0 { Some(70 + i as u16) } else { None };
+                    let mut p = mk_publish(ver, ch, 70 + i as u32, *qos, pid, 2);
+                    p.dup = false;
+                    p.retain = false;
+                    plan.peer.script.push(step(Pkt::Publish(p), ver, Pre::Connected));
+                }
+            }
+            2 => {
+                // handshake override of Maximum QoS
+                let q = ch.choose(2) as u8;
+                plan.cfg.max_qos = 2;
+                plan.cfg.hs_max_qos = Some(q);
+                plan.tags.push(format!("limit:max-qos:{q}"));
+                for (i, qos) in [q, q + 1].iter().enumerate() {
+                    let pid = if *qos > 0 { Some(70 + i as u16) } else { None };
+                    let mut p = mk_publish(ver, ch, 70 + i as u32, *qos, pid, 2);
+                    p.dup = false;
+                    p.retain = false;
+                    plan.peer.script.push(step(Pkt::Publish(p), ver, Pre::Connected));
+                }
+            }
+            3 => {
+                // topic alias maximum: configured or overridden
+                let a = 1 + ch.choose(3) as u16;
+                if ch.chance(1, 2) {
+                    plan.cfg.max_topic_alias = a;
+                } else {
+                    plan.cfg.max_topic_alias = 8;
+                    plan.cfg.hs_topic_alias_max = Some(a);
+                }
+                plan.tags.push(format!("limit:alias:{a}"));
+                for (i, al) in [a, a + 1].iter().enumerate() {
+                    let mut p = mk_publish(ver, ch, 80 + i as u32, 0, None, 2);
+                    p.props.retain(|(id, _)| *id != 35);
+                    p.props.push((35, PropVal::U16(*al)));
+                    plan.peer.script.push(step(Pkt::Publish(p), ver, Pre::Connected));
+                }
+            }
+            _ => {
+                // receive maximum: configured or overridden
+                let r = 1 + ch.choose(2) as u16;
+                if ch.chance(1, 2) {
+                    plan.cfg.max_receive = r;
+                } else {
+                    plan.cfg.max_receive = 8;
+                    plan.cfg.hs_receive_max = Some(r);
+                }
+                plan.p_immediate = 0;
+                plan.p_hold = 1000;
+                plan.tags.push(format!("limit:receive-max:{r}"));
+                for i in 0..=r {
+                    let mut p = mk_publish(ver, ch, 90 + u32::from(i), 1, Some(90 + i), 2);
+                    p.dup = false;
+                    plan.peer.script.push(step(Pkt::Publish(p), ver, Pre::Connected));
+                }
+            }
+        }
+    }
+    plan.ending = Ending::Settle;
     plan
 }
 
